@@ -1,5 +1,6 @@
 """C06 (partial): the in-band occupancy marker never receives an unsanitised hash (R-TAINT-S);
 every map operation routes every HashMapStorage variant to a back end that consumes the key."""
+from vlib import fixtures
 from rules import sentinel, variant
 
 FILE = "src/hash_map/zipora_hash_map.rs"
@@ -8,6 +9,7 @@ OPS = ("::insert", "::get", "::get_mut", "::remove", "::clear", "::len")
 
 def run(ctx):
     fx = ctx.facts("default")
+    fixtures.run(ctx, ['variant'])
     sentinel.run(ctx, fx, FILE, "hash_map::zipora_hash_map::HashEntry::hash")
     ctx.floor("R-TAINT-S.sources", 4)
     ctx.floor("R-TAINT-S.sinks", 5)
